@@ -44,9 +44,11 @@ func GetNodePreferableGpuForSharing(fittingGPUsOnNode []string, node *node_info.
 	}
 
 	deviceCounts := pod.ResReq.GetNumOfGpuDevices()
+	wholeGpusPicked := 0
 	for _, gpuIdx := range fittingGPUsOnNode {
 		if gpuIdx == pod_info.WholeGpuIndicator {
-			if wholeGpuForSharing := findGpuForSharingOnNode(pod, node, isPipelineOnly); wholeGpuForSharing != nil {
+			if wholeGpuForSharing := findGpuForSharingOnNode(pod, node, isPipelineOnly, wholeGpusPicked); wholeGpuForSharing != nil {
+				wholeGpusPicked++
 				nodeGpusSharing.IsReleasing =
 					nodeGpusSharing.IsReleasing || wholeGpuForSharing.IsReleasing
 				nodeGpusSharing.Groups = append(nodeGpusSharing.Groups, wholeGpuForSharing.Groups...)
@@ -67,10 +69,14 @@ func GetNodePreferableGpuForSharing(fittingGPUsOnNode []string, node *node_info.
 	return nil
 }
 
-func findGpuForSharingOnNode(task *pod_info.PodInfo, node *node_info.NodeInfo, isPipelineOnly bool) *nodeGpuForSharing {
+func findGpuForSharingOnNode(task *pod_info.PodInfo, node *node_info.NodeInfo, isPipelineOnly bool,
+	wholeGpusAlreadyPicked int) *nodeGpuForSharing {
 	isReleasing := true
 	if !isPipelineOnly {
-		if taskAllocatable := node.IsTaskAllocatable(task); taskAllocatable {
+		// A new GPU group can be bound only onto a whole GPU that is idle right now. IsTaskAllocatable alone is not
+		// enough: it also accepts room on existing shared GPUs, which is not what is being handed out here.
+		hasIdleWholeGpu := wholeGpusAlreadyPicked < int(node.Idle.GPUs())
+		if taskAllocatable := node.IsTaskAllocatable(task); taskAllocatable && hasIdleWholeGpu {
 			isReleasing = false
 		}
 	}
